@@ -1732,8 +1732,13 @@ func builtinSearchSorted(env *LEnv, args *LVal) *LVal {
 		return env.Errorf("second arument is not a function: %v", p.Type)
 	}
 	sortErr := Nil()
+	// The predicate is called on behalf of the search-sorted call expression:
+	// its stack frame records that call site, like the frame of any other
+	// callback.
+	callSite := env.loc
 	i := sort.Search(n.Int, func(i int) bool {
 		expr := SExpr([]*LVal{p, Int(i)})
+		expr.source = callSite
 		ok := env.Eval(expr)
 		if ok.Type == LError {
 			sortErr = ok
